@@ -10,7 +10,9 @@ def gen_cases(tier, rng):
     # exhaustive histories on the 8-bit table
     depth = 5 if tier == "quick" else 6
     for mx in ((1, 2, 3) if tier == "quick" else (1, 2, 3, 5)):
-        alpha = ["r:7"] + ["x:%d" % i for i in range(0, mx + 2)] + ["l:%d" % i for i in range(0, mx + 2)]
+        # (token 0 is reserved and never issued: releasing it is outside the API contract and not generated;
+        #  an earlier version of the thorough generator did, which raised a false alarm)
+        alpha = ["r:7"] + ["x:%d" % i for i in range(1, mx + 2)] + ["l:%d" % i for i in range(0, mx + 2)]
         if tier == "quick":
             alpha = ["r:7"] + ["x:%d" % i for i in range(1, mx + 2)] + ["l:%d" % i for i in range(1, mx + 1)]
         for d in range(1, depth + 1):
